@@ -44,6 +44,18 @@ kills of a run are not reached, or a planned step never fires at all, the run en
   pool2     max_procs of the restart (null = the same pool size as run 1)
   prelude   same_process only: an unrelated successful 2x2 study ran earlier in the same process, same pool size
   Kill scenarios keep avoid_crashes=True / fresh process (the killed process is gone).
+  History (sequence of runs on ONE directory D, fresh processes):
+  force_restart_first  force_restart flag of run 1 (on an empty directory both values start the study in D)
+  middle    0..3 further calls multiprocessing_run(D, ...) between run 1 and the final resumes, each with its own
+            force_restart (False = resume of D; True = the module opens a NESTED study D/restarted_study_N, a fresh
+            study with the same inputs), its own raising subset and its own kill point (a kill in a resume is
+            taken among the cases still to be done; header kills only where a header is written)
+  final_order  nested_first | outer_first: order of the final resumes.
+  The harness tracks, per run, the directory the run works in (model: a forced restart of a study whose header
+  is complete goes to the first free restarted_study_N, everything else works in D) and, observed on disk before
+  every run, which cases are complete in EACH study directory (D and every nested one).  After the history,
+  every study directory gets a final resume (multiprocessing_run(<that directory>, force_restart=False), no
+  faults) which must satisfy all oracles against the same uninterrupted reference.
 
 Every scenario runs three times `python -m vlib.mp_driver` (own session/process group, stdin=/dev/null) in
 scratch directories under one tempfile.mkdtemp() that is always removed:
@@ -70,10 +82,13 @@ Oracles (exactly the clauses of the statement)
               number and grid index: index == unravel(case_number) in the C-ordered grid, and the args
               the study function saw are the grid values at that index (harness model of the grid:
               linspace/logspace + must_include, unique).  The same clause is applied to the reference run.
-  counters    executions per grid point (counter lines, grouped by the args they record): >= 1; <= 1 for
-              cases complete at the kill (not executed again); <= 2 otherwise (<= 1 after a header kill: no case
-              had started, so run 2 must execute every case exactly once); and no execution of a point
-              outside the grid.
+  counters    executions per (study directory, grid point) - the counter lines record the inputs and the study
+              directory the case was executed for - judged per run of the history: a case that was complete
+              (marker + loadable result) in its directory when a run started is not executed by that run; any
+              other case at most once per run; after the final resume of a directory every case was executed
+              at least once for that directory; no execution of a point outside the grid.  (For the two-run
+              scenario this is the old rule: <= 1 for cases complete at the kill, <= 2 otherwise, <= 1 after a
+              header kill.)
 No numeric tolerance anywhere (equality only; see 'equal').
 
 Non-trivial = at the restart at least one case was complete and at least one was not (kill fired, or cases
@@ -100,6 +115,8 @@ Sensitivity (tools/mut.py, quick tier, all CAUGHT; signatures seen in brackets):
   seeded/C18-2 (restart reuses any existing result file of an unmarked case, also truncated ones) [completes/returned_none]
   seeded/C18-3 (pool.terminate() in the crash handler leaves a dead pool in pathos' cache: rerun in the same process
                with the same max_procs after an avoid_crashes=False failure -> 'Pool not running')  [completes/returned_none]
+  seeded/C18-4 (skip list collected by a recursive search for mp_success.log: markers of a nested restarted_study_N
+               count for the outer study)  [completes/exception FileNotFoundError / BadZipFile on the outer resume]
 Negative controls: rewording the messages ('MP Study:: Working on Case' -> 'MP Study: case', 'completed successfully'
   -> 'done') plus an extra preamble line in the log header => rc 0 with all 11 kill steps firing (injection is keyed on
   file operations); `os.makedirs(this_run_dir)` -> `os.mkdir(...)` (post_mkdir hook no longer reached) => HARNESS-ERROR
@@ -108,7 +125,7 @@ Negative controls: rewording the messages ('MP Study:: Working on Case' -> 'MP S
 Note: on the tree before 94c69eb a header_no_close log happened to restart correctly (the parser simply ran to the
 end of the file), so that variant does not discriminate the revert; header_empty and header_mid_inputs do.
 
-Measured: one scenario ~3 CPU-s (three runs of ~1 s: 0.8 s import + pool start); quick = 31 fixed + 142 generated
+Measured: one scenario ~3 CPU-s (three runs of ~1 s: 0.8 s import + pool start); quick = 36 fixed + 142 generated (about 1/3 of them histories with 1-2 middle runs, 4-6 runs each)
 scenarios on 16 shards.
 """
 import json
@@ -124,7 +141,8 @@ import numpy as np
 from hypothesis import strategies as st
 
 from vlib import env
-from vlib.mp_driver import CASE_STEPS, HEADER_STEPS, STEPS, f_value, header_lines, snapshot as _snapshot
+from vlib.mp_driver import (CASE_STEPS, HEADER_STEPS, STEPS, f_value, header_lines, read_counters as _read_counters,
+                            snapshot as _snapshot)
 from vlib.result import Collector, HarnessError, discard
 
 ID = 'C18'
@@ -148,7 +166,9 @@ RUN_TIMEOUT = 90.0           # seconds per study run; a healthy run takes ~1 s (
 MAX_POINTS = 64
 
 RULE = ('A scenario = (1-3 axes with n 2-4, linear/log, must_include as []/list/tuple; pool 4-16; raising subset; kill point '
-        '(case k, one of 8 case steps or 3 log-header steps, delay) or none).  Fixed cases enumerate every kill step (thorough: every (case, step) of a '
+        '(case k, one of 8 case steps or 3 log-header steps, delay) or none; optionally a history of 1-2 further runs on the same '
+        'directory with generated force_restart flags (forced = nested study) and their own interruptions, then a final '
+        'resume of every study directory).  Fixed cases enumerate every kill step (thorough: every (case, step) of a '
         '3x3 grid x 4 pool sizes x 2 delays); the rest is drawn by Hypothesis.  Non-trivial: at the restart >= 1 case was '
         'complete (success marker and loadable result file) and >= 1 was not, or a header kill fired.  Distinct = distinct scenario JSON.')
 ASSUMPTIONS = ['equality of results is bitwise (same function, same grid values; repr() round-trips doubles)',
@@ -272,6 +292,23 @@ def _scenario(draw):
                 'delay_ms': draw(st.sampled_from(_DELAYS))}
     out = {'axes': axes, 'pool': pool, 'raise': raise_set, 'kill': kill, 'work_ms': draw(st.sampled_from([0, 1, 2, 5]))}
     out.update(extra)
+    # history: further calls on the same directory between run 1 and the final resume(s), each with its own
+    # force_restart flag (True = multiprocessing_run opens a nested study <dir>/restarted_study_N) and interruption
+    out['force_restart_first'] = draw(st.sampled_from([False, False, True]))
+    out['middle'] = []
+    out['final_order'] = 'nested_first'
+    if not extra['same_process'] and draw(st.sampled_from(['history', 'plain', 'plain', 'history', 'plain'])) == 'history':
+        for _ in range(draw(st.sampled_from([1, 1, 2]))):
+            forced = draw(st.sampled_from([True, False, True]))
+            if draw(st.sampled_from(['kill', 'none', 'kill'])) == 'kill':
+                steps = list(CASE_STEPS) + (list(HEADER_STEPS[:1]) if forced else [])
+                mk = {'case': draw(st.integers(0, n_pts - 1)), 'step': draw(st.sampled_from(steps)),
+                      'delay_ms': draw(st.sampled_from(_DELAYS))}
+            else:
+                mk = None
+            mr = sorted(draw(st.sets(st.integers(0, n_pts - 1), max_size=2))) if draw(st.sampled_from([False, True, False])) else []
+            out['middle'].append({'force_restart': forced, 'kill': mk, 'raise': mr})
+        out['final_order'] = draw(st.sampled_from(['nested_first', 'outer_first', 'nested_first']))
     return out
 
 
@@ -322,6 +359,21 @@ def in_domain(case):
             return False            # kill scenarios: the process is gone, restart = fresh process, avoid_crashes=True
         if case.get('prelude', False) and not case.get('same_process', False):
             return False
+        mid = case.get('middle') or []
+        if len(mid) > 3 or (mid and case.get('same_process', False)):
+            return False
+        if not isinstance(case.get('force_restart_first', False), bool) or \
+                case.get('final_order', 'nested_first') not in ('nested_first', 'outer_first'):
+            return False
+        for m in mid:
+            if not isinstance(m['force_restart'], bool):
+                return False
+            if not all(isinstance(r, int) and 0 <= r < n_pts for r in (m.get('raise') or [])):
+                return False
+            mk = m.get('kill')
+            if mk is not None and not (mk['step'] in STEPS and isinstance(mk['case'], int) and 0 <= mk['case'] < n_pts
+                                       and 0 <= mk['delay_ms'] <= 100):
+                return False
         return 0 <= case['work_ms'] <= 10
     except Exception:
         return False
@@ -360,6 +412,21 @@ def fixed_cases(tier):
         out.append({'axes': _G3, 'pool': 7, 'raise': [2], 'kill': {'case': 1, 'step': s, 'delay_ms': 0}, 'work_ms': 1})
     out.append({'axes': _GE, 'pool': 4, 'raise': [], 'kill': {'case': 1, 'step': 'post_marker', 'delay_ms': 5}, 'work_ms': 1})
     out.append({'axes': _GA, 'pool': 5, 'raise': [0, 7, 11], 'kill': None, 'work_ms': 0})
+    # histories with forced nested studies (force_restart=True on an interrupted study), then the resumes
+    k_mkdir = {'case': 5, 'step': 'post_mkdir', 'delay_ms': 10}
+    out.append({'axes': _GA, 'pool': 4, 'raise': [], 'kill': k_mkdir, 'work_ms': 1,
+                'middle': [{'force_restart': True, 'kill': None, 'raise': []}]})                       # nested completes
+    out.append({'axes': _GB, 'pool': 6, 'raise': [2, 7], 'kill': None, 'work_ms': 1, 'final_order': 'outer_first',
+                'middle': [{'force_restart': True, 'kill': {'case': 9, 'step': 'post_marker', 'delay_ms': 30}, 'raise': []}]})
+    out.append({'axes': _G3, 'pool': 5, 'raise': [1], 'kill': {'case': 8, 'step': 'mid_savez', 'delay_ms': 3}, 'work_ms': 2,
+                'middle': [{'force_restart': False, 'kill': {'case': 2, 'step': 'post_savez', 'delay_ms': 0}, 'raise': [0]},
+                           {'force_restart': True, 'kill': None, 'raise': [4]}]})                     # resume killed, then nested
+    out.append({'axes': _GA, 'pool': 8, 'raise': [], 'kill': {'case': 3, 'step': 'pre_log', 'delay_ms': 3}, 'work_ms': 1,
+                'force_restart_first': True,
+                'middle': [{'force_restart': True, 'kill': {'case': 0, 'step': 'header_empty', 'delay_ms': 0}, 'raise': []},
+                           {'force_restart': True, 'kill': {'case': 6, 'step': 'post_success_line', 'delay_ms': 10}, 'raise': []}]})
+    out.append({'axes': _GB, 'pool': 4, 'raise': [], 'kill': {'case': 0, 'step': 'header_no_close', 'delay_ms': 0}, 'work_ms': 0,
+                'middle': [{'force_restart': True, 'kill': {'case': 4, 'step': 'post_func', 'delay_ms': 10}, 'raise': []}]})
     nk = {'kill': None, 'avoid_crashes': False, 'same_process': True, 'pool2': None, 'prelude': False}
     out.append(dict(nk, axes=_GA, pool=4, work_ms=1, **{'raise': [7]}))                    # crash, same process, same pool
     out.append(dict(nk, axes=_GB, pool=6, work_ms=0, **{'raise': [2, 9]}))                 # crash, same process, same pool
@@ -384,6 +451,14 @@ def fixed_cases(tier):
                     for same, p2, pre in ((True, None, False), (True, None, True), (True, 5, False), (False, None, False)):
                         out.append({'axes': _G33[g], 'pool': pool, 'raise': [r], 'kill': None, 'work_ms': 1,
                                     'avoid_crashes': avoid, 'same_process': same, 'pool2': p2, 'prelude': pre})
+        for k in range(9):
+            for s in ('post_mkdir', 'post_func', 'post_marker', 'post_success_line'):
+                for mid in ([{'force_restart': True, 'kill': None, 'raise': []}],
+                            [{'force_restart': True, 'kill': {'case': (k + 4) % 9, 'step': 'post_marker', 'delay_ms': 15}, 'raise': []}],
+                            [{'force_restart': False, 'kill': {'case': k, 'step': 'post_savez', 'delay_ms': 0}, 'raise': []},
+                             {'force_restart': True, 'kill': None, 'raise': [k]}]):
+                    out.append({'axes': _G33['tuple'], 'pool': 4, 'raise': [], 'kill': {'case': k, 'step': s, 'delay_ms': 15},
+                                'work_ms': 1, 'middle': mid, 'final_order': 'outer_first' if k % 2 else 'nested_first'})
         for s in HEADER_STEPS:
             for k in (0, 1):
                 out.append({'axes': _G3, 'pool': 5, 'raise': [], 'kill': {'case': k, 'step': s, 'delay_ms': 0}, 'work_ms': 0})
@@ -404,7 +479,9 @@ def required_labels(tier):
             + ['kill:none', 'mi:tuple', 'mi:list', 'mi:none', 'scale:log', 'scale:linear', 'dims:1', 'dims:2', 'dims:3',
                'raise:some', 'raise:none', 'restart:reloaded_some', 'avoid_crashes:false', 'run1:study_crashed',
                'same_process', 'same_process:same_pool', 'same_process:other_pool', 'same_process:after_prelude',
-               'fresh_process:after_crash',
+               'fresh_process:after_crash', 'history:forced_nested_study_then_resume_of_outer',
+               'history:nested_completed_cases_the_outer_has_not', 'middle:forced_new_study', 'middle:resume',
+               'middle:in_nested_directory', 'final_order:nested_first', 'final_order:outer_first',
                'restart:reran_some', 'at_restart:marker_and_result', 'at_restart:result_without_marker',
                'at_restart:truncated_result', 'at_restart:dir_only'])
 
@@ -413,14 +490,18 @@ def extra_coverage(tier, merged):
     lab = merged['labels']
     fired = {s: lab.get('killed:' + s, 0) for s in STEPS}        # 8 case steps + 3 header steps
     planned = {s: lab.get('step:' + s, 0) for s in STEPS}
-    not_reached = lab.get('kill:not_reached', 0)
+    not_reached = lab.get('kill:not_reached', 0) + lab.get('mkill:not_reached', 0)
     never = [s for s in STEPS if planned[s] > 0 and fired[s] == 0]
-    if not_reached * 10 > sum(planned.values()) or never:
+    m_planned = sum(v for k, v in lab.items() if k.startswith('mstep:'))
+    if not_reached * 10 > sum(planned.values()) + m_planned or never:
         # vacuity guard: the injection no longer finds its kill points (e.g. after a refactor of the module)
         raise HarnessError('fault injection is not reaching its kill points: %d of %d planned kills not reached; steps that '
                            'never fired: %s' % (not_reached, sum(planned.values()), never))
     out = {'kill_points_fired_per_step': fired, 'kill_points_fired': sum(fired.values()),
            'kill_planned_but_not_reached': lab.get('kill:not_reached', 0),
+           'middle_run_kills_planned': m_planned, 'middle_run_kills_fired': sum(v for k, v in lab.items() if k.startswith('mkilled:')),
+           'middle_run_kills_not_reached': lab.get('mkill:not_reached', 0),
+           'histories_with_forced_nested_study_then_outer_resume': lab.get('history:forced_nested_study_then_resume_of_outer', 0),
            'scenarios_without_kill_raising_only': lab.get('kill:none', 0),
            'explanation': 'each evaluation = one scenario = reference run + faulted run 1 + restart run 2 of the real '
                           'multiprocessing_run in its own process group; kill_points_fired counts scenarios whose SIGKILL was '
@@ -537,16 +618,6 @@ def _reference(case, root):
     return key, run
 
 
-def _read_counters(counter_dir):
-    lines = []
-    for name in sorted(os.listdir(counter_dir)):
-        with open(os.path.join(counter_dir, name)) as fh:
-            for ln in fh.read().splitlines():
-                k, args = ln.split('\t')
-                lines.append((int(k), json.loads(args)))
-    return lines
-
-
 def _point_of(args, arrays):
     """Grid index of the point with exactly these coordinates (None if it is not a grid point)."""
     if args is None or len(args) != len(arrays):
@@ -607,6 +678,114 @@ def _check_results(c, run_name, results, arrays, ref_by_case, detail_ctx):
     return {k: v[0] for k, v in by_case.items()}
 
 
+def _study_dirs(outer):
+    """The outer study directory and the nested studies multiprocessing_run created in it (forced restarts)."""
+    out = [outer]
+    if os.path.isdir(outer):
+        nested = []
+        for name in os.listdir(outer):
+            m = re.fullmatch(r'restarted_study_(\d+)', name)
+            if m is not None and os.path.isdir(os.path.join(outer, name)):
+                nested.append((int(m.group(1)), os.path.join(outer, name)))
+        out += [p for _, p in sorted(nested)]
+    return out
+
+
+def _complete_of(snap):
+    return {k for k, sn in snap.items() if sn['marker'] and sn['npz'] == 'complete'}
+
+
+def _counts(lines, arrays, shape):
+    """{(study dir, case number of the grid point that was executed): executions}, [lines outside the grid]."""
+    counts, foreign = {}, []
+    for k_dir, args, sdir in lines:
+        pt = _point_of(args, arrays)
+        if pt is None:
+            foreign.append((k_dir, args, os.path.basename(sdir)))
+            continue
+        key = (os.path.normpath(sdir), int(np.ravel_multi_index(pt, shape)))
+        counts[key] = counts.get(key, 0) + 1
+    return counts, foreign
+
+
+def _effective_kill(kill, incomplete):
+    """Kill point of a run that resumes a study: the case is taken among the cases still to be done."""
+    if kill is None or not incomplete:
+        return None
+    todo = sorted(incomplete)
+    k = dict(kill)
+    if kill['step'] in ('pre_log', 'post_log'):
+        k['case'] = kill['case'] % len(todo)              # k-th case start of this run
+    elif kill['step'] in CASE_STEPS:
+        k['case'] = todo[kill['case'] % len(todo)]
+    return k
+
+
+def _label_snapshot(c, snap, n_pts):
+    for sn in snap.values():
+        if sn['marker'] and sn['npz'] == 'complete':
+            c.label('at_restart:marker_and_result')
+        elif sn['marker']:
+            c.label('at_restart:marker_without_result')
+        elif sn['npz'] == 'complete':
+            c.label('at_restart:result_without_marker')
+        elif sn['npz'] == 'broken':
+            c.label('at_restart:truncated_result')
+        elif sn['error']:
+            c.label('at_restart:error_log')
+        else:
+            c.label('at_restart:dir_only')
+    if len(snap) < n_pts:
+        c.label('at_restart:not_started')
+
+
+def _check_deltas(c, before, after, snaps_before, what_run, ctx):
+    """Executions during one run, per (study directory, case): none for a case that was complete in that directory
+    when the run started, at most one otherwise."""
+    redone, twice = [], []
+    for key, n in sorted(after.items()):
+        d = n - before.get(key, 0)
+        if d <= 0:
+            continue
+        sdir, k = key
+        if k in _complete_of(snaps_before.get(sdir, {})):
+            redone.append((os.path.basename(sdir), k, d))
+        elif d > 1:
+            twice.append((os.path.basename(sdir), k, d))
+    c.check(not redone, {'clause': 'counters', 'what': 'completed_case_executed_again'},
+            '%s: cases complete (marker + loadable result) in their study directory when the run started but executed again '
+            '(directory, case, executions in this run): %s %s' % (what_run, redone[:12], ctx))
+    c.check(not twice, {'clause': 'counters', 'what': 'executed_more_than_once_in_one_run'},
+            '%s: (directory, case, executions in this run): %s %s' % (what_run, twice[:12], ctx))
+
+
+def _judge_restart(c, name, hang, payload, rc, log_tail, arrays, ref_by_case, ctx):
+    """Clauses completes / one_result / labels / equal for one final resume.  True if it returned a list."""
+    if hang:
+        c.fail({'clause': 'completes', 'kind': 'hang', 'run': name},
+               '%s did not return within %.0f s %s\n%s' % (name, RUN_TIMEOUT, ctx, log_tail))
+        return False
+    if payload is None:
+        c.fail({'clause': 'completes', 'kind': 'died', 'rc': rc, 'run': name}, '%s died rc=%r %s\n%s' % (name, rc, ctx, log_tail))
+        return False
+    if payload['status'] == 'raised':
+        c.fail({'clause': 'completes', 'kind': 'exception', 'type': payload['exc_type'], 'where': _repo_where(payload['traceback']),
+                'run': name},
+               '%s raised %s: %s %s\n%s' % (name, payload['exc_type'], payload['exc'], ctx, payload['traceback'][-900:]))
+        return False
+    if payload['status'] != 'returned':
+        c.fail({'clause': 'completes', 'kind': 'returned_none', 'run': name},
+               '%s returned None (study reported as crashed) %s\n%s' % (name, ctx, log_tail))
+        return False
+    results = payload['results']
+    if any(el.get('result_type') == 'NpzFile' for el in results):
+        c.label('restart:reloaded_some')
+    if any(el.get('result_type') == 'dict' for el in results):
+        c.label('restart:reran_some')
+    _check_results(c, name, results, arrays, ref_by_case, ctx)
+    return True
+
+
 def evaluate(case):
     if not in_domain(case):
         return discard('scenario outside the generator domain')
@@ -614,6 +793,7 @@ def evaluate(case):
     arrays = model_arrays(axes)
     shape = _shape(arrays)
     n_pts = int(np.prod(shape))
+    all_cases = set(range(n_pts))
     if _cpus() < 4:
         return discard('host has fewer than 4 CPUs: multiprocessing_run refuses to start')
     pool = min(int(case['pool']), _cpus())      # max_procs above the CPU count is rejected by the module
@@ -621,9 +801,11 @@ def evaluate(case):
     raise_set = set(case['raise'])
     if kill is not None and kill['step'] in CASE_STEPS and kill['step'] not in ('pre_log', 'post_log', 'post_mkdir'):
         raise_set.discard(kill['case'])       # steps after the study function do not exist for a raising case
+    middle = list(case.get('middle') or [])
     c = Collector(nontrivial=False)
     c.label('dims:%d' % len(axes), 'pool:4-7' if pool < 8 else 'pool:8-11' if pool < 12 else 'pool:12-16',
-            'raise:some' if raise_set else 'raise:none', 'kill:none' if kill is None else 'step:' + kill['step'])
+            'raise:some' if raise_set else 'raise:none', 'kill:none' if kill is None else 'step:' + kill['step'],
+            'history:%d_runs_before_the_final_resume' % (1 + len(middle)))
     if pool != int(case['pool']):
         c.label('pool:capped_by_cpu_count')
     avoid = bool(case.get('avoid_crashes', True))
@@ -653,96 +835,110 @@ def evaluate(case):
         ref_key, ref_run = _reference(dict(case, pool=pool), root)
         if ref_run is not None:
             runs.append(ref_run)
-        spec1 = dict(base, raise_cases=sorted(raise_set), raise_on=True, kill=kill, work_ms=case['work_ms'])
-        out2 = os.path.join(root, 'run2.out.json')
-        if same:
-            # run 1 and the restart are two calls inside one driver process
-            spec1['then'] = [{'pool': pool2, 'raise_on': False, 'out': out2}]
-            if prelude:
-                spec1['prelude_dir'] = os.path.join(root, 'prelude_study')
-        run1 = _Run(root, 'run1', spec1)
-        runs.append(run1)
-        run1.finish(RUN_TIMEOUT * (2 if same else 1))
         ctx = '| scenario: grid %s pool %d raise %s kill %s' % (shape, pool, sorted(raise_set), kill)
         if kill is None:
             ctx += ' avoid_crashes=%s restart in %s process with pool %d%s' % (
                 avoid, 'the SAME' if same else 'a fresh', pool2, ' after an unrelated study' if prelude else '')
 
-        # ---- run 1: killed at the kill point, or finished with raising cases
-        fired = run1.kill_fired()
-        if run1.hang and not (same and run1.payload is not None):
-            c.fail({'clause': 'run1', 'kind': 'hang', 'kill_fired': fired},
-                   'run 1 neither finished nor died within %.0f s %s\n%s' % (RUN_TIMEOUT, ctx, run1.log_tail()))
-            return c.result()
-        if fired:
-            if run1.rc != -signal.SIGKILL:
-                raise HarnessError('kill point reached but run 1 ended with rc=%r\n%s' % (run1.rc, run1.log_tail()))
-            c.label('killed:' + kill['step'])
-            with open(run1.spec['kill_marker']) as fh:
-                note = fh.read()
-            if 'MISMATCH' in note:
-                raise HarnessError('header layout differs from the model of the header cut: %s' % note)
-        else:
-            if run1.payload is None or (run1.rc != 0 and not same):
-                raise HarnessError('run 1 died without injected kill: rc=%r\n%s' % (run1.rc, run1.log_tail()))
-            if kill is not None:
-                c.label('kill:not_reached')
-            pre = run1.payload.get('prelude')
-            if pre is not None and (pre['status'] != 'returned' or pre['n'] != 4):
-                raise HarnessError('the unrelated prelude study did not complete: %r' % (pre,))
-            if run1.payload['status'] == 'none' and not avoid and raise_set:
-                # avoid_crashes=False: the raising case crashed the study - this is the interruption
-                c.label('run1:study_crashed')
-                if not same:
-                    c.label('fresh_process:after_crash')
-            elif run1.payload['status'] != 'returned':
-                # a first run whose raising cases are caught by avoid_crashes (or that has none) must return
-                c.fail({'clause': 'run1', 'kind': run1.payload['status'], 'type': run1.payload.get('exc_type'),
-                        'where': _repo_where(run1.payload.get('traceback'))},
-                       'first run (no kill) did not return: %s %s' % (run1.payload.get('traceback', '')[-900:], ctx))
-                return c.result()
-        if same:
-            snap = {int(k): v for k, v in run1.payload['snapshot_after'].items()}
-        else:
-            snap = _snapshot(study)
-        complete = {k for k, sn in snap.items() if sn['marker'] and sn['npz'] == 'complete'}
-        for sn in snap.values():
-            if sn['marker'] and sn['npz'] == 'complete':
-                c.label('at_restart:marker_and_result')
-            elif sn['marker']:
-                c.label('at_restart:marker_without_result')
-            elif sn['npz'] == 'complete':
-                c.label('at_restart:result_without_marker')
-            elif sn['npz'] == 'broken':
-                c.label('at_restart:truncated_result')
-            elif sn['error']:
-                c.label('at_restart:error_log')
+        # ---- the history: run 1 and the middle runs, all called on the outer directory, each possibly interrupted
+        plan = [{'force_restart': bool(case.get('force_restart_first', False)), 'kill': kill, 'raise': sorted(raise_set),
+                 'avoid': avoid, 'work_ms': case['work_ms']}]
+        for m in middle:
+            plan.append({'force_restart': bool(m['force_restart']), 'kill': m.get('kill'), 'raise': sorted(m.get('raise') or []),
+                         'avoid': True, 'work_ms': case['work_ms']})
+        header_ok = {}                     # study directory -> its log header was written completely (model)
+        counts = {}
+        out2 = os.path.join(root, 'run2.out.json')
+        same_payload = None
+        only_header_kills = True
+        for i, step in enumerate(plan):
+            tag = 'run%d' % (i + 1)
+            dirs = _study_dirs(study)
+            snaps = {d: _snapshot(d) for d in dirs}
+            if step['force_restart'] and header_ok.get(study):
+                n = 1
+                while os.path.isdir(os.path.join(study, 'restarted_study_%d' % n)):
+                    n += 1
+                work, mode = os.path.join(study, 'restarted_study_%d' % n), 'fresh'
             else:
-                c.label('at_restart:dir_only')
-        if len(snap) < n_pts:
-            c.label('at_restart:not_started')
-        header_kill = bool(fired and kill['step'] in HEADER_STEPS)
-        if header_kill and snap:
-            raise HarnessError('header kill fired but case directories exist: %r' % sorted(snap))
-        if header_kill and kill['step'] == 'header_mid_inputs':
-            c.label('header_lines:%d_of_%d' % (header_lines(kill['case'], len(axes)), len(axes)))
-        c.nontrivial = header_kill or (bool(complete) and len(complete) < n_pts and (fired or bool(raise_set)))
-        c.label('complete_at_restart:' + ('none' if not complete else 'all' if len(complete) == n_pts else 'some'))
-        # ---- run 2: restart, no faults
-        if same:
-            run2 = run1                     # same driver process; its second output file is the restart's
-            run2_payload = None
-            if os.path.exists(out2):
-                with open(out2) as fh:
-                    run2_payload = json.load(fh)
-        else:
-            executed1 = len(_read_counters(counters))
-            ctx += ' | %d executions before the restart' % executed1
-            run2 = _Run(root, 'run2', dict(base, pool=pool2, raise_cases=[], raise_on=False, kill=None, work_ms=0))
-            runs.append(run2)
-            run2.finish()
-            run2_payload = run2.payload
-        ctx += ' | at restart: %d complete, %d directories' % (len(complete), len(snap))
+                work, mode = study, ('resume' if header_ok.get(study) else 'fresh')
+            k_eff = step['kill']
+            r_eff = list(step['raise'])
+            if mode == 'resume':
+                todo = all_cases - _complete_of(snaps.get(work, {}))
+                k_eff = _effective_kill(step['kill'], todo)
+                r_eff = sorted(set(r_eff) & todo)
+            if k_eff is not None and k_eff['step'] in HEADER_STEPS and mode == 'resume':
+                k_eff = None                 # a resume does not write a header
+            if k_eff is not None and k_eff['step'] in CASE_STEPS and k_eff['step'] not in ('pre_log', 'post_log', 'post_mkdir'):
+                r_eff = [r for r in r_eff if r != k_eff['case']]
+            if i > 0:
+                c.label('middle:forced_new_study' if step['force_restart'] else 'middle:resume',
+                        'middle:in_nested_directory' if work != study else 'middle:in_outer_directory')
+                if step['kill'] is not None:
+                    c.label('mstep:' + step['kill']['step'] if k_eff is not None else 'middle:kill_dropped_nothing_to_do')
+                ctx += ' | run %d: force_restart=%s -> %s of %s, raise %s kill %s' % (
+                    i + 1, step['force_restart'], mode, os.path.basename(work), r_eff, k_eff)
+            spec = dict(base, raise_cases=r_eff, raise_on=True, kill=k_eff, work_ms=step['work_ms'],
+                        force_restart=step['force_restart'], avoid_crashes=step['avoid'])
+            if same:
+                # run 1 and the restart are two calls inside one driver process
+                spec['then'] = [{'pool': pool2, 'raise_on': False, 'out': out2, 'force_restart': False}]
+                if prelude:
+                    spec['prelude_dir'] = os.path.join(root, 'prelude_study')
+            run = _Run(root, tag, spec)
+            runs.append(run)
+            run.finish(RUN_TIMEOUT * (2 if same else 1))
+            fired = run.kill_fired()
+            if run.hang and not (same and run.payload is not None):
+                c.fail({'clause': 'run1', 'kind': 'hang', 'kill_fired': fired},
+                       'run %d neither finished nor died within %.0f s %s\n%s' % (i + 1, RUN_TIMEOUT, ctx, run.log_tail()))
+                return c.result()
+            if fired:
+                if run.rc != -signal.SIGKILL:
+                    raise HarnessError('kill point reached but run %d ended with rc=%r\n%s' % (i + 1, run.rc, run.log_tail()))
+                c.label(('killed:' if i == 0 else 'mkilled:') + k_eff['step'])
+                with open(run.spec['kill_marker']) as fh:
+                    note = fh.read()
+                if 'MISMATCH' in note:
+                    raise HarnessError('header layout differs from the model of the header cut: %s' % note)
+            else:
+                if run.payload is None or (run.rc != 0 and not same):
+                    raise HarnessError('run %d died without injected kill: rc=%r\n%s' % (i + 1, run.rc, run.log_tail()))
+                if k_eff is not None:
+                    c.label('kill:not_reached' if i == 0 else 'mkill:not_reached')
+                pre = run.payload.get('prelude')
+                if pre is not None and (pre['status'] != 'returned' or pre['n'] != 4):
+                    raise HarnessError('the unrelated prelude study did not complete: %r' % (pre,))
+                if run.payload['status'] == 'none' and not step['avoid'] and r_eff:
+                    # avoid_crashes=False: the raising case crashed the study - this is the interruption
+                    c.label('run1:study_crashed')
+                    if not same:
+                        c.label('fresh_process:after_crash')
+                elif run.payload['status'] != 'returned':
+                    # a run whose raising cases are caught by avoid_crashes (or that has none) must return
+                    c.fail({'clause': 'run1', 'kind': run.payload['status'], 'type': run.payload.get('exc_type'),
+                            'where': _repo_where(run.payload.get('traceback'))},
+                           'run %d (no kill) did not return: %s %s' % (i + 1, run.payload.get('traceback', '')[-900:], ctx))
+                    return c.result()
+            header_kill = bool(fired and k_eff['step'] in HEADER_STEPS)
+            only_header_kills = only_header_kills and header_kill
+            if mode == 'fresh':
+                header_ok[work] = not header_kill
+            if same:
+                same_payload = run.payload
+                new_counts, foreign = _counts(same_payload['counters_after'], arrays, shape)
+            else:
+                new_counts, foreign = _counts(_read_counters(counters), arrays, shape)
+            if header_kill and new_counts != counts:
+                raise HarnessError('header kill fired but cases were executed: %r' % sorted(set(new_counts) - set(counts)))
+            if header_kill and k_eff['step'] == 'header_mid_inputs':
+                c.label('header_lines:%d_of_%d' % (header_lines(k_eff['case'], len(axes)), len(axes)))
+            c.check(not foreign, {'clause': 'counters', 'what': 'point_outside_grid'},
+                    'run %d: study function executed on inputs that are no grid point of the study (dir case number, inputs, '
+                    'directory): %s %s' % (i + 1, foreign[:6], ctx))
+            _check_deltas(c, counts, new_counts, snaps, 'run %d' % (i + 1), ctx)
+            counts = new_counts
 
         # ---- reference
         if ref_run is not None:
@@ -765,52 +961,58 @@ def evaluate(case):
         if c.fails:
             ref_by_case = None      # a mislabelled reference cannot serve as the expected value; its own failures are reported
 
-        if run2.hang:
-            c.fail({'clause': 'completes', 'kind': 'hang'},
-                   'restart did not return within %.0f s %s\n%s' % (RUN_TIMEOUT, ctx, run2.log_tail()))
-            return c.result()
-        if run2_payload is None:
-            c.fail({'clause': 'completes', 'kind': 'died', 'rc': run2.rc}, 'restart died rc=%r %s\n%s' % (run2.rc, ctx, run2.log_tail()))
-            return c.result()
-        p2 = run2_payload
-        if p2['status'] == 'raised':
-            c.fail({'clause': 'completes', 'kind': 'exception', 'type': p2['exc_type'], 'where': _repo_where(p2['traceback'])},
-                   'restart raised %s: %s %s\n%s' % (p2['exc_type'], p2['exc'], ctx, p2['traceback'][-900:]))
-            return c.result()
-        if p2['status'] != 'returned':
-            c.fail({'clause': 'completes', 'kind': 'returned_none'},
-                   'restart returned None (study reported as crashed) %s\n%s' % (ctx, run2.log_tail()))
-            return c.result()
-        results = p2['results']
-        if any(el.get('result_type') == 'NpzFile' for el in results):
-            c.label('restart:reloaded_some')
-        if any(el.get('result_type') == 'dict' for el in results):
-            c.label('restart:reran_some')
-        _check_results(c, 'restart', results, arrays, ref_by_case, ctx)
-
-        # ---- counters
-        counts = {}
-        foreign = []
-        for k_dir, args in _read_counters(counters):
-            pt = _point_of(args, arrays)
-            if pt is None:
-                foreign.append((k_dir, args))
-                continue
-            k = int(np.ravel_multi_index(pt, shape))
-            counts[k] = counts.get(k, 0) + 1
-        c.check(not foreign, {'clause': 'counters', 'what': 'point_outside_grid'},
-                'study function executed on inputs that are no grid point of the study (dir case number, inputs): %s %s'
-                % (foreign[:6], ctx))
-        redone = sorted(k for k in complete if counts.get(k, 0) > 1)
-        c.check(not redone, {'clause': 'counters', 'what': 'completed_case_executed_again'},
-                'cases complete at the restart (marker + loadable result) but executed again: %s; executions %s %s'
-                % (redone[:12], {k: counts.get(k, 0) for k in redone[:12]}, ctx))
-        limit = 1 if header_kill else 2      # after a header kill no case had started: exactly once, all in run 2
-        many = sorted(k for k in range(n_pts) if k not in complete and counts.get(k, 0) > limit)
-        c.check(not many, {'clause': 'counters', 'what': 'more_than_two_executions' if limit == 2 else 'executed_twice_after_header_kill'},
-                'executions per case %s (allowed %d) %s' % ({k: counts.get(k, 0) for k in many[:12]}, limit, ctx))
-        never = sorted(k for k in range(n_pts) if counts.get(k, 0) < 1)
-        c.check(not never, {'clause': 'counters', 'what': 'never_executed'}, 'cases never executed: %s %s' % (never[:12], ctx))
+        # ---- final resumes (force_restart=False, no faults): the outer study and every nested study
+        dirs = _study_dirs(study)
+        order = list(dirs[1:]) + [study] if case.get('final_order', 'nested_first') == 'nested_first' else list(dirs)
+        if len(dirs) > 1:
+            c.label('history:forced_nested_study_then_resume_of_outer', 'final_order:' + case.get('final_order', 'nested_first'))
+        finished = []
+        for d in order:
+            name = 'restart' if d == study else 'restart_nested'
+            if same:
+                snaps = {study: {int(k): v for k, v in same_payload['snapshot_after'].items()}}
+            else:
+                snaps = {x: _snapshot(x) for x in _study_dirs(study)}
+            complete = _complete_of(snaps.get(d, {}))
+            if d == study:
+                _label_snapshot(c, snaps.get(d, {}), n_pts)
+                c.label('complete_at_restart:' + ('none' if not complete else 'all' if len(complete) == n_pts else 'some'))
+                had_interruption = any(lb.startswith(('killed:', 'mkilled:')) for lb in c.labels) or bool(raise_set) \
+                    or any(m.get('raise') for m in middle)
+                c.nontrivial = only_header_kills or (bool(complete) and len(complete) < n_pts and had_interruption)
+                nested_done = set()
+                for x in dirs[1:]:
+                    nested_done |= _complete_of(snaps.get(x, {}))
+                if nested_done - complete:
+                    c.label('history:nested_completed_cases_the_outer_has_not')
+            else:
+                c.label('nested:complete_%s' % ('none' if not complete else 'all' if len(complete) == n_pts else 'some'))
+            here = ctx + ' | final resume of %s: %d of %d cases complete there' % (
+                os.path.relpath(d, root), len(complete), n_pts)
+            if same:
+                p2 = None
+                if os.path.exists(out2):
+                    with open(out2) as fh:
+                        p2 = json.load(fh)
+                run2 = runs[-1]
+            else:
+                run2 = _Run(root, 'final%d' % len(finished), dict(base, dir=d, pool=pool2 if d == study else pool, raise_cases=[],
+                                                                 raise_on=False, kill=None, work_ms=0, force_restart=False))
+                runs.append(run2)
+                run2.finish()
+                p2 = run2.payload
+            ok = _judge_restart(c, name, run2.hang, p2, run2.rc, run2.log_tail(), arrays, ref_by_case, here)
+            new_counts, foreign = _counts(_read_counters(counters), arrays, shape)
+            c.check(not foreign, {'clause': 'counters', 'what': 'point_outside_grid'},
+                    '%s: study function executed on inputs that are no grid point of the study (dir case number, inputs, '
+                    'directory): %s %s' % (name, foreign[:6], here))
+            _check_deltas(c, counts, new_counts, snaps, name, here)
+            counts = new_counts
+            if ok:
+                finished.append(d)
+                never = sorted(k for k in range(n_pts) if counts.get((os.path.normpath(d), k), 0) < 1)
+                c.check(not never, {'clause': 'counters', 'what': 'never_executed'},
+                        '%s: cases never executed for this study directory: %s %s' % (name, never[:12], here))
         return c.result()
     finally:
         for r in runs:
